@@ -80,31 +80,37 @@ func (r *Repository) GetEntriesInTree(treeID Hash) ([]TreeEntry, error) {
 	// of being on Ubuntu 22.04. 22.04 is still widely used in WSL2 environments.
 	// So, we're removing --format and parsing the output differently to handle
 	// the extra information for each entry we don't need.
-	stdOut, err := r.executor("ls-tree", treeID.String()).executeString()
+	// -z delimits entries with NUL and outputs file names verbatim, without
+	// it names with special characters are quoted
+	stdOut, err := r.executor("ls-tree", "-z", treeID.String()).executeRaw()
 	if err != nil {
 		return nil, fmt.Errorf("unable to enumerate items in tree '%s': %w", treeID.String(), err)
 	}
 
-	if stdOut == "" {
+	if len(stdOut) == 0 {
 		return nil, nil // alternatively, just check if treeID is empty tree?
 	}
 
-	lines := strings.Split(stdOut, "\n")
+	lines := strings.Split(strings.TrimSuffix(string(stdOut), "\x00"), "\x00")
 	entries := make([]TreeEntry, 0, len(lines))
 	for _, line := range lines {
 		// Without --format, the output is in the following format:
 		// <mode> SP <type> SP <object> TAB <file>
 		// From: https://git-scm.com/docs/git-ls-tree/2.34.1#_output_format
 
-		fields := strings.Split(line, " ")
+		// <file> may itself contain spaces and tabs
+		info, name, found := strings.Cut(line, "\t")
+		fields := strings.Split(info, " ")
+		if !found || len(fields) != 3 {
+			return nil, fmt.Errorf("unexpected entry '%s' in tree '%s'", line, treeID.String())
+		}
 		// fields[0] is <mode> -- discard
 		// fields[1] is <type> -- blob or tree
-		// fields[2] is <object> TAB <file>
-		objectAndName := strings.Split(fields[2], "\t")
+		// fields[2] is <object>
 
-		hash, err := NewHash(objectAndName[0])
+		hash, err := NewHash(fields[2])
 		if err != nil {
-			return nil, fmt.Errorf("invalid Git ID '%s' for path '%s': %w", objectAndName[0], objectAndName[1], err)
+			return nil, fmt.Errorf("invalid Git ID '%s' for path '%s': %w", fields[2], name, err)
 		}
 
 		kind := gitstore.KindBlob
@@ -112,7 +118,7 @@ func (r *Repository) GetEntriesInTree(treeID Hash) ([]TreeEntry, error) {
 			kind = gitstore.KindSubtree
 		}
 
-		entries = append(entries, TreeEntry{Path: objectAndName[1], ID: hash, Kind: kind})
+		entries = append(entries, TreeEntry{Path: name, ID: hash, Kind: kind})
 	}
 
 	return entries, nil
@@ -126,19 +132,18 @@ func (r *Repository) GetAllFilesInTree(treeID Hash) (map[string]Hash, error) {
 	// of being on Ubuntu 22.04. 22.04 is still widely used in WSL2 environments.
 	// So, we're removing --format and parsing the output differently to handle
 	// the extra information for each entry we don't need.
-	stdOut, err := r.executor("ls-tree", "-r", treeID.String()).executeString()
+	// -z delimits entries with NUL and outputs file names verbatim, without
+	// it names with special characters are quoted
+	stdOut, err := r.executor("ls-tree", "-r", "-z", treeID.String()).executeRaw()
 	if err != nil {
 		return nil, fmt.Errorf("unable to enumerate all files in tree: %w", err)
 	}
 
-	if stdOut == "" {
+	if len(stdOut) == 0 {
 		return nil, nil // alternatively, just check if treeID is empty tree?
 	}
 
-	entries := strings.Split(stdOut, "\n")
-	if len(entries) == 0 {
-		return nil, nil
-	}
+	entries := strings.Split(strings.TrimSuffix(string(stdOut), "\x00"), "\x00")
 
 	files := map[string]Hash{}
 	for _, entry := range entries {
@@ -146,19 +151,22 @@ func (r *Repository) GetAllFilesInTree(treeID Hash) (map[string]Hash, error) {
 		// <mode> SP <type> SP <object> TAB <file>
 		// From: https://git-scm.com/docs/git-ls-tree/2.34.1#_output_format
 
-		entrySplit := strings.Split(entry, " ")
-		// entrySplit[0] is <mode> -- discard
-		// entrySplit[1] is <type> -- discard
-		// entrySplit[2] is <object> TAB <file> -- keep
-		entrySplit = strings.Split(entrySplit[2], "\t")
+		// <file> may itself contain spaces and tabs
+		info, name, found := strings.Cut(entry, "\t")
+		fields := strings.Split(info, " ")
+		if !found || len(fields) != 3 {
+			return nil, fmt.Errorf("unexpected entry '%s' in tree '%s'", entry, treeID.String())
+		}
+		// fields[0] is <mode> -- discard
+		// fields[1] is <type> -- discard
+		// fields[2] is <object>, really the object ID
 
-		// <object> is really the object ID
-		hash, err := NewHash(entrySplit[0])
+		hash, err := NewHash(fields[2])
 		if err != nil {
-			return nil, fmt.Errorf("invalid Git ID '%s' for path '%s': %w", entrySplit[0], entrySplit[1], err)
+			return nil, fmt.Errorf("invalid Git ID '%s' for path '%s': %w", fields[2], name, err)
 		}
 
-		files[entrySplit[1]] = hash
+		files[name] = hash
 	}
 
 	return files, nil
@@ -465,10 +473,11 @@ func (t *TreeBuilder) writeTree(entries []treeNode) (Hash, error) {
 			// TODO: support entryBlob's permissions here
 			input += "100644 blob " + entry.gitID.String() + "\t" + entry.name
 		}
-		input += "\n"
+		// entries are NUL terminated (-z) so names are taken verbatim
+		input += "\x00"
 	}
 
-	stdOut, err := t.repo.executor("mktree").withStdIn(bytes.NewBufferString(input)).executeString()
+	stdOut, err := t.repo.executor("mktree", "-z").withStdIn(bytes.NewBufferString(input)).executeString()
 	if err != nil {
 		return ZeroHash, fmt.Errorf("unable to write Git tree: %w", err)
 	}
